@@ -4,10 +4,14 @@ Line protocol for K_C05 (one op per line, same `step` the theorems are about).
 
   reset <slots>
   addUpload <u> | addDownload <u> | cycle | started <k> | finish <k> | failX <k> | backToQueue <k>
-  requeue <k> | apiQueue <k> | abort <k> | setSlots <n> | setUser <u> <UNKNOWN|OFFLINE|AWAY|ONLINE> <friend 0|1> <priv 0|1>
+  requeue <k> | apiQueue <k> | abort <k> | setSlots <n> | friend <u> <0|1>
+  report <u> <OFFLINE|AWAY|ONLINE> <priv 0|1>      server: GetUserStatus.Response
+  reply <u> <NONE|OFFLINE|AWAY|ONLINE>             server: AddUser.Response (NONE = no such user)
+  privList <u,u,...|->                             server: PrivilegedUsers.Response
 
 Answer: `<ok|refused> p=<cycle pending 0|1> slots=<n> sel=<ids started by this cycle, priority order|-> q=<ids of
-_get_queued_transfers()[1] after the op> | <id>:<STATE> ...`
+_get_queued_transfers()[1] after the op> seen=<for a cycle: u:STATUS/friend/priv the scheduler read for every user
+with a transfer|-> known=<u:STATUS/priv of every user object the user manager holds after the op> | <id>:<STATE> ...`
 -/
 open AioslskVerif.Sched
 
@@ -19,16 +23,35 @@ def stName : St → String
 def ids (l : List Xfer) : String :=
   if l.isEmpty then "-" else ",".intercalate (l.map (fun x => toString x.id))
 
-def render (s : Sched) (res : String) (sel : List Xfer) : String :=
-  let ents := " ".intercalate (s.xs.map (fun x => s!"{x.id}:{stName x.st}"))
-  s!"{res} p={if s.cyclePending then 1 else 0} slots={s.slots} sel={ids sel} q={ids s.eligible} | {ents}"
+def b01 (b : Bool) : String := if b then "1" else "0"
 
-def parseStatus : String → Option UStatus
-  | "UNKNOWN" => some .unknown | "OFFLINE" => some .offline | "AWAY" => some .away | "ONLINE" => some .online
-  | _ => none
+/-- users (small numbers in K_C05) that have a transfer -/
+def usersOf (s : Sched) : List Nat := (List.range 16).filter (fun u => s.xs.any (·.user == u))
+
+def dash (l : List String) : String := if l.isEmpty then "-" else ",".intercalate l
+
+def seenStr (s : Sched) : String :=
+  dash ((usersOf s).map (fun u =>
+    let i := s.users u
+    s!"{u}:{i.status.name}/{b01 i.friend}/{b01 i.privileged}"))
+
+def knownStr (s : Sched) : String :=
+  dash ((List.range 16).filterMap (fun u => (s.store u).map (fun k => s!"{u}:{k.status.name}/{b01 k.privileged}")))
+
+def render (s : Sched) (res : String) (sel : List Xfer) (seen : String) : String :=
+  let ents := " ".intercalate (s.xs.map (fun x => s!"{x.id}:{stName x.st}"))
+  s!"{res} p={if s.cyclePending then 1 else 0} slots={s.slots} sel={ids sel} q={ids s.eligible} seen={seen} known={knownStr s} | {ents}"
 
 def parseBool : String → Option Bool
   | "0" => some false | "1" => some true | _ => none
+
+/-- statuses the server can report (`UserStatus(message.status)` raises for anything else) -/
+def parseReported : String → Option UStatus
+  | "OFFLINE" => some .offline | "AWAY" => some .away | "ONLINE" => some .online
+  | _ => none
+
+def parseUsers (t : String) : Option (List Nat) :=
+  if t = "-" then some [] else (t.splitOn ",").mapM (·.toNat?)
 
 def parseOp : List String → Option Op
   | ["addUpload", u] => u.toNat?.map .addUpload
@@ -42,30 +65,40 @@ def parseOp : List String → Option Op
   | ["apiQueue", k] => k.toNat?.map .apiQueue
   | ["abort", k] => k.toNat?.map .abort
   | ["setSlots", n] => n.toNat?.map .setSlots
-  | ["setUser", u, st, f, p] => do
+  | ["friend", u, b] => do
     let u ← u.toNat?
-    let st ← parseStatus st
-    let f ← parseBool f
+    let b ← parseBool b
+    pure (.friend u b)
+  | ["report", u, st, p] => do
+    let u ← u.toNat?
+    let st ← parseReported st
     let p ← parseBool p
-    pure (.setUser u { status := st, friend := f, privileged := p })
+    pure (.report u st p)
+  | ["reply", u, "NONE"] => u.toNat?.map (.reply · none)
+  | ["reply", u, st] => do
+    let u ← u.toNat?
+    let st ← parseReported st
+    pure (.reply u (some st))
+  | ["privList", l] => (parseUsers l).map .privList
   | _ => none
 
 def handle (s : Sched) (line : String) : Sched × String :=
   match (line.splitOn " ").filter (· ≠ "") with
   | ["reset", n] =>
     match n.toNat? with
-    | some n => let s' : Sched := { slots := n }; (s', render s' "ok" [])
+    | some n => let s' : Sched := { slots := n }; (s', render s' "ok" [] "-")
     | none => (s, "bad-op")
   | toks =>
     match parseOp toks with
     | none => (s, "bad-op")
     | some op =>
       let ok := s.accepts op
-      let sel := match op with
-        | .cycle => if ok then s.select else []
-        | _ => []
+      -- the decision of a cycle is taken after the tracking half: `s.track`
+      let (sel, seen) := match op with
+        | .cycle => if ok then (s.track.select, seenStr s.track) else ([], "-")
+        | _ => ([], "-")
       let s' := step s op
-      (s', render s' (if ok then "ok" else "refused") sel)
+      (s', render s' (if ok then "ok" else "refused") sel seen)
 
 partial def loop (h : IO.FS.Stream) (s : Sched) : IO Unit := do
   let line ← h.getLine
